@@ -14,7 +14,7 @@ import time
 from . import gen, model
 from .stage import PY, VERIF, Stage
 
-EVID = os.path.join(VERIF, "evidence")
+EVID = os.path.join(VERIF, "evidence") if os.path.abspath(os.environ.get("VERIF_REPO", "/repo")) == "/repo" else "/var/tmp/verif-evidence-altrepo"
 REPLAYS = os.path.join(VERIF, "replays")
 BACKENDS = (("py", False), ("rs", True))
 
